@@ -65,3 +65,84 @@ func abiSkipLiteral(f *ast.File, fn string) string {
 }
 
 func readFile(path string) ([]byte, error) { return os.ReadFile(path) }
+
+
+// desugarSwitch rewrites a `switch` without init, fallthrough, break or type switch into the
+// equivalent chain of `if` statements: `switch tag { case a, b: A; default: D }` becomes
+// `if tag == a || tag == b { A } else { D }`; a tagless switch uses the case expressions themselves.
+// ok is false when the statement has a form that is not handled (it is then left to the caller,
+// which treats it as outside its subset).
+func desugarSwitch(sw *ast.SwitchStmt) (ast.Stmt, bool) {
+	if sw.Init != nil {
+		return nil, false
+	}
+	if sw.Tag != nil {
+		switch ast.Unparen(sw.Tag).(type) {
+		case *ast.Ident, *ast.SelectorExpr, *ast.BasicLit:
+		default:
+			return nil, false // the tag would be evaluated once; only side-effect free tags are duplicated
+		}
+	}
+	bad := false
+	ast.Inspect(sw.Body, func(n ast.Node) bool {
+		switch x := n.(type) {
+		case *ast.BranchStmt:
+			if x.Tok == token.BREAK || x.Tok == token.FALLTHROUGH {
+				bad = true
+			}
+		case *ast.ForStmt, *ast.RangeStmt, *ast.FuncLit, *ast.SelectStmt:
+			// a break inside a nested loop belongs to that loop, but keep the analysis simple
+			bad = bad || false
+		}
+		return true
+	})
+	if bad {
+		return nil, false
+	}
+	var clauses []*ast.CaseClause
+	var dflt *ast.CaseClause
+	for _, st := range sw.Body.List {
+		cc, ok := st.(*ast.CaseClause)
+		if !ok {
+			return nil, false
+		}
+		if cc.List == nil {
+			dflt = cc
+			continue
+		}
+		clauses = append(clauses, cc)
+	}
+	var tail ast.Stmt
+	if dflt != nil {
+		tail = &ast.BlockStmt{List: dflt.Body}
+	}
+	for i := len(clauses) - 1; i >= 0; i-- {
+		cc := clauses[i]
+		var cond ast.Expr
+		for _, e := range cc.List {
+			var c ast.Expr = e
+			if sw.Tag != nil {
+				c = &ast.BinaryExpr{X: sw.Tag, Op: token.EQL, Y: e}
+			}
+			if cond == nil {
+				cond = c
+			} else {
+				cond = &ast.BinaryExpr{X: cond, Op: token.LOR, Y: c}
+			}
+		}
+		is := &ast.IfStmt{If: cc.Pos(), Cond: cond, Body: &ast.BlockStmt{List: cc.Body}}
+		if tail != nil {
+			switch tl := tail.(type) {
+			case *ast.BlockStmt:
+				is.Else = tl
+			case *ast.IfStmt:
+				is.Else = tl
+			}
+		}
+		tail = is
+	}
+	if tail == nil {
+		return &ast.BlockStmt{}, true
+	}
+	return tail, true
+}
